@@ -191,18 +191,90 @@ package keeper
 //@   fails_if [C14] #c14-esm: k.esm.GetESMStatus(ctx, msg.AppId).1 && k.esm.GetESMStatus(ctx, msg.AppId).0.Status
 //@   fails_if [C14] #c14-esm-of-position: vf0 && k.esm.GetESMStatus(ctx, v0.AppId).1 && k.esm.GetESMStatus(ctx, v0.AppId).0.Status
 
+
+// ---- MsgClose ----
+
 //@ func (k msgServer) MsgClose
-//@   property C12, C14
+//@   property C01, C02, C12, C13, C14
 //@   let v0 = k.GetVault(ctx, msg.UserVaultId).0
+//@   let ep = k.asset.GetPairsVault(ctx, msg.ExtendedPairVaultId).0
+//@   let pair = k.asset.GetPair(ctx, ep.PairId).0
+//@   let din = k.asset.GetAsset(ctx, pair.AssetIn).0.Denom
+//@   let dout = k.asset.GetAsset(ctx, pair.AssetOut).0.Denom
+//@   let vm = modaddr("vaultV1")
+//@   let cm = modaddr("collectorV1")
+//@   let user = addr(msg.From)
 //@   let vf0 = k.GetVault(ctx, msg.UserVaultId).1
+//@   requires #validated: msg.ValidateBasic() == nil
+//@   requires #vault-keyed: k.GetVault(ctx, msg.UserVaultId).1 ==> v0.Id == msg.UserVaultId
+//@   requires #vault-nonneg: v0.AmountIn >= 0 && v0.AmountOut >= 0 && v0.InterestAccumulated >= 0 && v0.ClosingFeeAccumulated >= 0
+//@   requires #map-keyed: k.GetAppExtendedPairVaultMappingData(ctx, msg.AppId, msg.ExtendedPairVaultId).1 ==> k.GetAppExtendedPairVaultMappingData(ctx, msg.AppId, msg.ExtendedPairVaultId).0.AppId == msg.AppId && k.GetAppExtendedPairVaultMappingData(ctx, msg.AppId, msg.ExtendedPairVaultId).0.ExtendedPairId == msg.ExtendedPairVaultId
+//@   requires #map-exists: k.GetVault(ctx, msg.UserVaultId).1 ==> k.GetAppExtendedPairVaultMappingData(ctx, v0.AppId, v0.ExtendedPairVaultID).1
+//@   requires #distinct-accounts: user != vm && user != cm && vm != cm
+//@   requires #distinct-denoms: din != dout
+//@   requires #nonneg-book: nf(k, ctx, msg.AppId, pair.AssetOut) >= 0
+//@   requires #count-covers-this-vault: k.GetVault(ctx, msg.UserVaultId).1 ==> k.GetLengthOfVault(ctx) >= 1
 //@   requires #app-keyed: k.asset.GetApp(ctx, msg.AppId).1 ==> k.asset.GetApp(ctx, msg.AppId).0.Id == msg.AppId
 //@   requires #pairsvault-keyed: k.asset.GetPairsVault(ctx, msg.ExtendedPairVaultId).1 ==> k.asset.GetPairsVault(ctx, msg.ExtendedPairVaultId).0.Id == msg.ExtendedPairVaultId
+//@   letpost fees = bal(cm, dout) - old(bal(cm, dout))
+//@   ensures [C01] #c01-vault-gone: ok ==> !k.GetVault(ctx, msg.UserVaultId).1
+//@   ensures [C01] #c01-count: ok ==> k.GetLengthOfVault(ctx) == old(k.GetLengthOfVault(ctx)) - 1
+//@   ensures [C01] #c01-collateral-returned: ok ==> bal(vm, din) == old(bal(vm, din)) - v0.AmountIn && bal(user, din) == old(bal(user, din)) + v0.AmountIn
+//@   ensures [C01] #c01-debt-custody-unchanged: ok ==> bal(vm, dout) == old(bal(vm, dout))
+//@   ensures [C01] #c01-published: ok ==> mapColl(k, ctx, msg.AppId, msg.ExtendedPairVaultId) == old(mapColl(k, ctx, msg.AppId, msg.ExtendedPairVaultId)) - v0.AmountIn && mapMint(k, ctx, msg.AppId, msg.ExtendedPairVaultId) == old(mapMint(k, ctx, msg.AppId, msg.ExtendedPairVaultId)) - v0.AmountOut
+//@   ensures [C01] #c01-frame-vaults: ok ==> forall j :: j != msg.UserVaultId ==> k.GetVault(ctx, j) == old(k.GetVault(ctx, j))
+//@   ensures [C02] #c02-burn-is-principal: ok ==> supply(dout) == old(supply(dout)) - v0.AmountOut && (forall d :: d != dout ==> supply(d) == old(supply(d)))
+//@   ensures [C02] #c02-user-pays-debt: ok ==> fees >= 0 && bal(user, dout) == old(bal(user, dout)) - v0.AmountOut - fees
+//@   ensures [C13] #c13-fees-recorded: ok ==> nf(k, ctx, msg.AppId, pair.AssetOut) == old(nf(k, ctx, msg.AppId, pair.AssetOut)) + fees
 //@   ensures [C12] #c12-owner: ok ==> vf0 && msg.From == v0.Owner
 //@   ensures [C12] #c12-own-app: ok ==> v0.AppId == msg.AppId && v0.ExtendedPairVaultID == msg.ExtendedPairVaultId
 //@   fails_if [C14] #c14-breaker: k.esm.GetKillSwitchData(ctx, msg.AppId).0.BreakerEnable
 //@   fails_if [C14] #c14-breaker-of-position: vf0 && k.esm.GetKillSwitchData(ctx, v0.AppId).0.BreakerEnable
 //@   fails_if [C14] #c14-esm: k.esm.GetESMStatus(ctx, msg.AppId).1 && k.esm.GetESMStatus(ctx, msg.AppId).0.Status
 //@   fails_if [C14] #c14-esm-of-position: vf0 && k.esm.GetESMStatus(ctx, v0.AppId).1 && k.esm.GetESMStatus(ctx, v0.AppId).0.Status
+
+
+// ---- MsgCreate ----
+
+//@ func (k msgServer) MsgCreate
+//@   property C01, C02, C03, C13, C14
+//@   let ep = k.asset.GetPairsVault(ctx, msg.ExtendedPairVaultId).0
+//@   let pair = k.asset.GetPair(ctx, ep.PairId).0
+//@   let din = k.asset.GetAsset(ctx, pair.AssetIn).0.Denom
+//@   let dout = k.asset.GetAsset(ctx, pair.AssetOut).0.Denom
+//@   let vm = modaddr("vaultV1")
+//@   let cm = modaddr("collectorV1")
+//@   let user = addr(msg.From)
+//@   let newid = k.GetIDForVault(ctx) + 1
+//@   let fee = ite(ep.DrawDownFee == 0, 0, trunc(decMul(msg.AmountOut * ONE, ep.DrawDownFee)))
+//@   requires #validated: msg.ValidateBasic() == nil
+//@   requires #app-keyed: k.asset.GetApp(ctx, msg.AppId).1 ==> k.asset.GetApp(ctx, msg.AppId).0.Id == msg.AppId
+//@   requires #pairsvault-keyed: k.asset.GetPairsVault(ctx, msg.ExtendedPairVaultId).1 ==> ep.Id == msg.ExtendedPairVaultId
+//@   requires #asset-keyed: (k.asset.GetAsset(ctx, pair.AssetIn).1 ==> k.asset.GetAsset(ctx, pair.AssetIn).0.Id == pair.AssetIn) && (k.asset.GetAsset(ctx, pair.AssetOut).1 ==> k.asset.GetAsset(ctx, pair.AssetOut).0.Id == pair.AssetOut)
+//@   requires #map-keyed: k.GetAppExtendedPairVaultMappingData(ctx, msg.AppId, msg.ExtendedPairVaultId).1 ==> k.GetAppExtendedPairVaultMappingData(ctx, msg.AppId, msg.ExtendedPairVaultId).0.AppId == msg.AppId && k.GetAppExtendedPairVaultMappingData(ctx, msg.AppId, msg.ExtendedPairVaultId).0.ExtendedPairId == msg.ExtendedPairVaultId
+//@   requires #distinct-accounts: user != vm && user != cm && vm != cm
+//@   requires #distinct-denoms: din != dout
+//@   requires #fee-rate: ep.DrawDownFee >= 0 && ep.DrawDownFee <= ONE
+//@   requires #nonneg-book: nf(k, ctx, msg.AppId, pair.AssetOut) >= 0
+//@   requires #fresh-id: !k.GetVault(ctx, newid).1 && newid < pow2(64)
+//@   requires #count-room: k.GetLengthOfVault(ctx) < pow2(64) - 1
+//@   letpost nv = k.GetVault(ctx, newid).0
+//@   ensures [C01] #c01-new-record: ok ==> k.GetVault(ctx, newid).1 && nv.Id == newid && nv.AmountIn == msg.AmountIn && nv.AmountOut == msg.AmountOut && nv.Owner == msg.From && nv.AppId == msg.AppId && nv.ExtendedPairVaultID == msg.ExtendedPairVaultId && nv.InterestAccumulated == 0
+//@   ensures [C01] #c01-count: ok ==> k.GetLengthOfVault(ctx) == old(k.GetLengthOfVault(ctx)) + 1 && k.GetIDForVault(ctx) == newid
+//@   ensures [C01] #c01-custody: ok ==> bal(vm, din) == old(bal(vm, din)) + msg.AmountIn && bal(vm, dout) == old(bal(vm, dout)) && bal(user, din) == old(bal(user, din)) - msg.AmountIn
+//@   ensures [C01] #c01-published: ok ==> mapColl(k, ctx, msg.AppId, msg.ExtendedPairVaultId) == ite(old(k.GetAppExtendedPairVaultMappingData(ctx, msg.AppId, msg.ExtendedPairVaultId).1), old(mapColl(k, ctx, msg.AppId, msg.ExtendedPairVaultId)), 0) + msg.AmountIn && mapMint(k, ctx, msg.AppId, msg.ExtendedPairVaultId) == ite(old(k.GetAppExtendedPairVaultMappingData(ctx, msg.AppId, msg.ExtendedPairVaultId).1), old(mapMint(k, ctx, msg.AppId, msg.ExtendedPairVaultId)), 0) + msg.AmountOut
+//@   ensures [C01] #c01-frame-vaults: ok ==> forall j :: j != newid ==> k.GetVault(ctx, j) == old(k.GetVault(ctx, j))
+//@   ensures [C02] #c02-minted-is-principal: ok ==> supply(dout) == old(supply(dout)) + msg.AmountOut && (forall d :: d != dout ==> supply(d) == old(supply(d)))
+//@   ensures [C02] #c02-user-gets-principal-less-fee: ok ==> bal(user, dout) == old(bal(user, dout)) + msg.AmountOut - fee
+//@   ensures [C02] #c02-fee-to-collector: ok ==> bal(cm, dout) == old(bal(cm, dout)) + fee
+//@   ensures [C13] #c13-fee-recorded: ok ==> nf(k, ctx, msg.AppId, pair.AssetOut) == old(nf(k, ctx, msg.AppId, pair.AssetOut)) + fee
+//@   ensures [C03] #c03-min-cr: ok ==> k.CalculateCollateralizationRatio(ctx, msg.ExtendedPairVaultId, msg.AmountIn, msg.AmountOut).1 == nil && k.CalculateCollateralizationRatio(ctx, msg.ExtendedPairVaultId, msg.AmountIn, msg.AmountOut).0 >= ep.MinCr
+//@   ensures [C03] #c03-floor: ok ==> msg.AmountOut >= ep.DebtFloor
+//@   ensures [C03] #c03-ceiling: ok ==> mapMint(k, ctx, msg.AppId, msg.ExtendedPairVaultId) <= ep.DebtCeiling
+//@   fails_if [C03] #c03-price-inactive: !(K("market").GetTwa(ctx, pair.AssetIn).1 && K("market").GetTwa(ctx, pair.AssetIn).0.IsPriceActive)
+//@   fails_if [C14] #c14-breaker: k.esm.GetKillSwitchData(ctx, msg.AppId).0.BreakerEnable
+//@   fails_if [C14] #c14-esm: k.esm.GetESMStatus(ctx, msg.AppId).1 && k.esm.GetESMStatus(ctx, msg.AppId).0.Status
+//@   ensures [C12] #c12-owner-is-signer: ok ==> nv.Owner == msg.From
 
 //@ func (k msgServer) MsgDepositAndDraw
 //@   property C12, C14
